@@ -431,11 +431,12 @@ func (o *oracleC10) before(c *stepCtx) {
 	c.shObs = observe(sw.V[n])
 }
 
-// shadow runs the reference execution on fresh memory; in one scenario out of
-// four also from a cold start of the package-level state (tables, caches and
+// shadow runs the reference execution on fresh memory; in about one scenario out
+// of three also from a cold start of the package-level state (tables, caches and
 // memos the library may keep between calls), which is put back afterwards.
 func (o *oracleC10) shadow(c *stepCtx, f func()) {
-	if c.sc.Seed%4 != 1 {
+	// (half of the scenarios that inherit the process's history, one in eight of the others)
+	if b := c.sc.Seed % 64; !(b > 32 && b%2 == 1 || b%8 == 1) {
 		verifrt.Shadow(f)
 		return
 	}
